@@ -1,14 +1,67 @@
+//! expsim - decides C19 and C20 by running the unmodified statime-linux
+//! observer and metrics exporter in-process over simulated sockets.
+//!
+//!   expsim check C19|C20 quick|thorough
+//!   expsim replay <file> [--quiet]
+//!   expsim selftest
+//!   expsim worker <batch.jsonl>      (debugging aid: runs a batch in a proper worker process)
+//!
+//! A worker process is this same binary started with argv `-c <config.toml>`
+//! (what the exporter's own clap parser wants to see) and the environment
+//! variable EXPSIM_WORKER=<batch.jsonl>.
+mod openmetrics;
+mod oracle19;
+mod parent;
+mod scenario;
+mod states;
+mod worker;
+
+use vcommon::Tier;
+
+fn usage() -> i32 {
+    eprintln!("usage: expsim check <C19|C20> <quick|thorough> | replay <file> [--quiet] | selftest | worker <batch.jsonl>");
+    2
+}
+
 fn main() {
-    let rt = tokio::runtime::Builder::new_current_thread().build().unwrap();
-    let local = tokio::task::LocalSet::new();
-    local.block_on(&rt, async {
-        let h = tokio::task::spawn_local(async { statime_linux::metrics_exporter_main().await.map_err(|e| e.to_string()) });
-        for _ in 0..5 { tokio::task::yield_now().await; }
-        println!("finished={}", h.is_finished());
-        let mut c = tokio::sim::TcpClient::connect("127.0.0.1:9975").unwrap();
-        c.write(b"GET /metrics HTTP/1.1\r\n\r\n");
-        for _ in 0..5 { tokio::task::yield_now().await; }
-        println!("{}", String::from_utf8_lossy(&c.take_received()));
-        c.close();
-    });
+    if let Ok(batch) = std::env::var("EXPSIM_WORKER") {
+        std::process::exit(worker::worker_main(&batch));
+    }
+    let args: Vec<String> = std::env::args().skip(1).collect();
+    let code = match args.first().map(|s| s.as_str()) {
+        Some("check") => {
+            let tier = match args.get(2).map(|s| s.as_str()) {
+                Some("quick") | None => Tier::Quick,
+                Some("thorough") => Tier::Thorough,
+                _ => std::process::exit(usage()),
+            };
+            match args.get(1).map(|s| s.as_str()) {
+                Some("C19") => parent::check_c19(tier),
+                Some("C20") => parent::check_c20(tier),
+                _ => usage(),
+            }
+        }
+        Some("replay") => match args.get(1) {
+            Some(f) => parent::replay(f, args.iter().any(|a| a == "--quiet")),
+            None => usage(),
+        },
+        Some("selftest") => parent::selftest(),
+        Some("worker") => match args.get(1) {
+            Some(f) => {
+                let text = std::fs::read_to_string(f).unwrap_or_default();
+                let list: Vec<scenario::Scenario> = text.lines().filter(|l| !l.trim().is_empty()).filter_map(|l| serde_json::from_str(l).ok()).collect();
+                let out = parent::run_batch(&list, list.len().max(1), 1);
+                for r in out.results.values() {
+                    println!("{}", serde_json::to_string(r).unwrap());
+                }
+                for e in &out.harness_errors {
+                    eprintln!("HARNESS-ERROR: {e}");
+                }
+                if out.harness_errors.is_empty() { 0 } else { 2 }
+            }
+            None => usage(),
+        },
+        _ => usage(),
+    };
+    std::process::exit(code);
 }
